@@ -25,6 +25,7 @@ impl<T> SharedData<T> {
     ///
     /// In case this is needed to be stored and/or used outside of the function,
     /// it is recommended to use the `read_fn` method instead.
+    #[cfg(not(brc20_prog_verif))]
     pub fn read(&'_ self) -> RwLockReadGuard<'_, T> {
         match self.inner.read() {
             Ok(guard) => guard,
@@ -34,6 +35,7 @@ impl<T> SharedData<T> {
 
     /// This method allows you to read from the inner data and handle errors.
     /// It returns a result of the operation.
+    #[cfg(not(brc20_prog_verif))]
     pub fn read_fn<F, R>(&self, f: F) -> Result<R, Box<dyn Error>>
     where
         F: FnOnce(&T) -> Result<R, Box<dyn Error>>,
@@ -46,6 +48,7 @@ impl<T> SharedData<T> {
     }
 
     /// This method allows you to read from the inner data and handle errors.
+    #[cfg(not(brc20_prog_verif))]
     pub fn write_fn<F, R>(&self, f: F) -> Result<R, Box<dyn Error>>
     where
         F: FnOnce(&mut T) -> Result<R, Box<dyn Error>>,
@@ -55,11 +58,120 @@ impl<T> SharedData<T> {
     }
 
     /// This method allows you to write to the inner data without checking for errors.
+    #[cfg(not(brc20_prog_verif))]
     pub fn write_fn_unchecked<F>(&self, f: F)
     where
         F: FnOnce(&mut T) -> (),
     {
         let mut guard = self.inner.write().expect("Failed to acquire write lock");
         f(&mut guard)
+    }
+}
+
+/// Verification hook: read guard that reports its release (also when dropped by unwinding).
+#[cfg(brc20_prog_verif)]
+pub struct VerifReadGuard<'a, T> {
+    guard: Option<RwLockReadGuard<'a, T>>,
+    lock: usize,
+    loc: &'static std::panic::Location<'static>,
+}
+
+#[cfg(brc20_prog_verif)]
+impl<T> std::ops::Deref for VerifReadGuard<'_, T> {
+    type Target = T;
+    fn deref(&self) -> &T {
+        self.guard.as_ref().expect("guard")
+    }
+}
+
+#[cfg(brc20_prog_verif)]
+impl<T> Drop for VerifReadGuard<'_, T> {
+    fn drop(&mut self) {
+        self.guard.take();
+        crate::verif::lock_event(self.lock, 'u', self.loc);
+    }
+}
+
+/// Verification hook: write guard that reports its release (also when dropped by unwinding,
+/// in which case the real guard poisons the lock exactly as it does without the hook).
+#[cfg(brc20_prog_verif)]
+struct VerifWriteGuard<'a, T> {
+    guard: Option<std::sync::RwLockWriteGuard<'a, T>>,
+    lock: usize,
+    loc: &'static std::panic::Location<'static>,
+}
+
+#[cfg(brc20_prog_verif)]
+impl<T> Drop for VerifWriteGuard<'_, T> {
+    fn drop(&mut self) {
+        self.guard.take();
+        crate::verif::lock_event(self.lock, 'U', self.loc);
+    }
+}
+
+/// Verification hook: the same four methods, reporting request / grant / release of the lock
+/// to the recorder (and to the scheduler, if one is installed) in `crate::verif`.
+#[cfg(brc20_prog_verif)]
+impl<T> SharedData<T> {
+    #[track_caller]
+    pub fn read(&'_ self) -> VerifReadGuard<'_, T> {
+        let loc = std::panic::Location::caller();
+        let lock = self as *const _ as usize;
+        crate::verif::lock_event(lock, 'r', loc);
+        let guard = match self.inner.read() {
+            Ok(guard) => guard,
+            Err(error) => error.into_inner(),
+        };
+        crate::verif::lock_event(lock, 'R', loc);
+        VerifReadGuard {
+            guard: Some(guard),
+            lock,
+            loc,
+        }
+    }
+
+    #[track_caller]
+    pub fn read_fn<F, R>(&self, f: F) -> Result<R, Box<dyn Error>>
+    where
+        F: FnOnce(&T) -> Result<R, Box<dyn Error>>,
+    {
+        let guard = self.read();
+        f(&*guard)
+    }
+
+    #[track_caller]
+    pub fn write_fn<F, R>(&self, f: F) -> Result<R, Box<dyn Error>>
+    where
+        F: FnOnce(&mut T) -> Result<R, Box<dyn Error>>,
+    {
+        let loc = std::panic::Location::caller();
+        let lock = self as *const _ as usize;
+        crate::verif::lock_event(lock, 'w', loc);
+        let guard = self.inner.write().expect("Failed to acquire write lock");
+        crate::verif::lock_event(lock, 'W', loc);
+        let mut guard = VerifWriteGuard {
+            guard: Some(guard),
+            lock,
+            loc,
+        };
+        f(&mut *guard.guard.as_mut().expect("guard"))
+    }
+
+    #[track_caller]
+    pub fn write_fn_unchecked<F>(&self, f: F)
+    where
+        F: FnOnce(&mut T) -> (),
+    {
+        let loc = std::panic::Location::caller();
+        let lock = self as *const _ as usize;
+        crate::verif::lock_event(lock, 'w', loc);
+        let guard = self.inner.write().expect("Failed to acquire write lock");
+        crate::verif::lock_event(lock, 'W', loc);
+        let mut guard = VerifWriteGuard {
+            guard: Some(guard),
+            lock,
+            loc,
+        };
+        f(&mut *guard.guard.as_mut().expect("guard"))
     }
 }
